@@ -94,8 +94,10 @@ class _FuseMinMaxBase(RewriteRuleClassBase, abc.ABC):
             MatchResult:
                 Success if we need to replace the pattern, Failure otherwise.
         """
-        del context  # Not used
         check_result = MatchResult()
+
+        if self.op_type == "Clip" and context.model.opset_imports.get("", 0) < 11:
+            return check_result.fail("Clip takes min and max as inputs only since opset 11.")
 
         first_node = out1.producer()
         second_node = out2.producer()
